@@ -340,7 +340,8 @@ func (g docGen) mutate(doc *jobj, kind string) string {
 		return kind
 	case "bad-kind":
 		doc.set("kind", jstr(g.pick("", "vendor", "/class", "vendor/", "ven dor/class", "vendor/cl ass", "1vendor/class", "vendor/class-",
-			"vendor/class/x", "vendor.com/class=x", "-v/c", "v_/c", "é/c")))
+			"vendor/class/x", "vendor.com/class=x", "-v/c", "v_/c", "é/c",
+			"vendor.com/gpu:v2", "ven:dor.com/class", "vendor.com/cl+ass", "v@ndor.com/class", "vendor.com/cl,ass", "vendor.com/cl ass", "ven;dor/class", "vendor.com/c:s")))
 		return kind
 	case "no-devices":
 		if g.maybe(50) {
